@@ -4,6 +4,8 @@ import (
 	"bytes"
 	"encoding/json"
 	"fmt"
+	"go/ast"
+	"go/parser"
 	"go/token"
 	"math/rand"
 	"reflect"
@@ -29,6 +31,136 @@ type c06Input struct {
 	Dens int    `json:"density"`
 	Mode string `json:"mode"` // clone | dup | dup-managed
 	Pick int    `json:"pick"`
+	Prep string `json:"prep,omitempty"` // mode clone: how the tree is made. "" decorator.Parse; "exports" ast.FileExports before DecorateFile; "filter" ast.FilterFile with a name filter drawn from the seed; "incomplete" Incomplete set by hand on struct / interface types and composite literals drawn from the seed
+}
+
+// c06Parse: the tree of a clone input.  The go/ast filters (what go/doc-style tools run) take
+// declarations, fields and methods out and set StructType.Incomplete / InterfaceType.Incomplete, which
+// no parse does; go/printer consults the flag.
+func c06Parse(in c06Input, r *rand.Rand) (f *dst.File, incomplete int) {
+	switch in.Prep {
+	case "":
+		f, _ = decorator.Parse(in.Src)
+	case "exports", "filter":
+		fset := token.NewFileSet()
+		af, err := parser.ParseFile(fset, "a.go", in.Src, parser.ParseComments)
+		if err != nil {
+			return nil, 0
+		}
+		if in.Prep == "exports" {
+			ast.FileExports(af)
+		} else {
+			salt := r.Intn(1 << 16)
+			ast.FilterFile(af, func(name string) bool {
+				h := salt
+				for i := 0; i < len(name); i++ {
+					h = h*31 + int(name[i])
+				}
+				return h%3 != 0
+			})
+		}
+		if pm := safely(func() { f, err = decorator.NewDecorator(fset).DecorateFile(af) }); pm != "" || err != nil {
+			return nil, 0
+		}
+	case "incomplete":
+		f, _ = decorator.Parse(in.Src)
+		if f == nil {
+			return nil, 0
+		}
+		var all []dst.Node
+		reflectPreorder(f, nil, &all)
+		for _, n := range all {
+			switch n := n.(type) {
+			case *dst.StructType:
+				n.Incomplete = r.Intn(3) != 0
+			case *dst.InterfaceType:
+				n.Incomplete = r.Intn(3) != 0
+			case *dst.CompositeLit:
+				n.Incomplete = r.Intn(3) != 0
+			}
+		}
+	}
+	if f == nil {
+		return nil, 0
+	}
+	var all []dst.Node
+	reflectPreorder(f, nil, &all)
+	for _, n := range all {
+		switch n := n.(type) {
+		case *dst.StructType:
+			if n.Incomplete {
+				incomplete++
+			}
+		case *dst.InterfaceType:
+			if n.Incomplete {
+				incomplete++
+			}
+		case *dst.CompositeLit:
+			if n.Incomplete {
+				incomplete++
+			}
+		}
+	}
+	return f, incomplete
+}
+
+// c06ValueDiff: original and clone walked side by side (by reflection): the same kinds of node at
+// the same places, and every plain value field (strings, booleans, tokens, directions ... -- all
+// that is neither a node, a list of nodes, an object / scope link nor the decorations) equal; the
+// decorations equal in content.
+func c06ValueDiff(a, b dst.Node) string { return c06ValueDiffAt(a, b, false) }
+
+// signature: a is the Type of a FuncDecl.  The decoration lists of that FuncType are rendered by the
+// FuncDecl case of the restorer; its Before / After are consulted by nothing (the declaration's own
+// spacing is) and are not demanded of the clone.
+func c06ValueDiffAt(a, b dst.Node, signature bool) string {
+	if reflect.TypeOf(a) != reflect.TypeOf(b) {
+		return fmt.Sprintf("a %T is cloned as a %T", a, b)
+	}
+	av, bv := reflect.ValueOf(a).Elem(), reflect.ValueOf(b).Elem()
+	at := av.Type()
+	for i := 0; i < at.NumField(); i++ {
+		fld := at.Field(i)
+		fa, fb := av.Field(i), bv.Field(i)
+		switch {
+		case fld.Name == "Decs":
+			da, db := fa.Interface(), fb.Interface()
+			if signature {
+				x, y := da.(dst.FuncTypeDecorations), db.(dst.FuncTypeDecorations)
+				x.Before, x.After, y.Before, y.After = dst.None, dst.None, dst.None, dst.None
+				da, db = x, y
+			}
+			if x, y := fmt.Sprintf("%q", da), fmt.Sprintf("%q", db); x != y {
+				return fmt.Sprintf("%s.Decs is %s in the original, %s in the clone", kindName(a), clip(x, 200), clip(y, 200))
+			}
+		case fld.Name == "Obj" || fld.Name == "Scope" || fld.Name == "Unresolved":
+			// links: dropped by Clone
+		case fld.Type.Implements(dstNodeType) && (fld.Type.Kind() == reflect.Interface || fld.Type.Kind() == reflect.Ptr):
+			if isNilNode(fa) != isNilNode(fb) {
+				return fmt.Sprintf("%s.%s is nil on one side only", kindName(a), fld.Name)
+			}
+		case fld.Type.Kind() == reflect.Slice && fld.Type.Elem().Implements(dstNodeType):
+			if fa.Len() != fb.Len() {
+				return fmt.Sprintf("%s.%s has %d elements in the original, %d in the clone", kindName(a), fld.Name, fa.Len(), fb.Len())
+			}
+		case fld.Type.Kind() == reflect.Map:
+		default:
+			if !reflect.DeepEqual(fa.Interface(), fb.Interface()) {
+				return fmt.Sprintf("%s.%s is %v in the original, %v in the clone", kindName(a), fld.Name, fa.Interface(), fb.Interface())
+			}
+		}
+	}
+	ca, cb := reflectChildren(a), reflectChildren(b)
+	if len(ca) != len(cb) {
+		return fmt.Sprintf("%s has %d children in the original, %d in the clone", kindName(a), len(ca), len(cb))
+	}
+	for i := range ca {
+		fd, isDecl := a.(*dst.FuncDecl)
+		if d := c06ValueDiffAt(ca[i], cb[i], isDecl && ca[i] == dst.Node(fd.Type)); d != "" {
+			return d
+		}
+	}
+	return ""
 }
 
 func c06Decorate(r *rand.Rand, f *dst.File, dens int) {
@@ -109,8 +241,8 @@ func c06Check(in c06Input) (key, what string) {
 	r := rand.New(rand.NewSource(in.Seed))
 	switch in.Mode {
 	case "clone":
-		f, err := decorator.Parse(in.Src)
-		if err != nil {
+		f, _ := c06Parse(in, r)
+		if f == nil {
 			return "", ""
 		}
 		c06Decorate(r, f, in.Dens)
@@ -138,6 +270,10 @@ func c06Check(in c06Input) (key, what string) {
 		}
 		if got != want {
 			return "c06-print", "the clone prints differently from the original:\n" + firstDiff(want, got)
+		}
+		// every plain value field, node by node
+		if d := c06ValueDiff(f, cl); d != "" {
+			return "c06-value-field", "the clone does not carry every field: " + d
 		}
 		// no shared nodes
 		on := nodeSet(f)
@@ -308,6 +444,14 @@ var c06ManagedSrcs = []string{
 	"package main\n\nimport \"fmt\"\n\nfunc f() {\n\tfmt.Println(fmt.Sprint(1), fmt.Sprint)\n}\n",
 }
 
+// declarations whose struct / interface types lose members to ast.FileExports and ast.FilterFile;
+// without comments (go/printer then adds its "contains filtered or unexported" line) and with
+var c06FilterSrcs = []string{
+	"package a\n\ntype S struct {\n\tA int\n\tb string\n}\n\ntype J interface {\n\tm()\n}\n\ntype K interface {\n\tM() int\n\tn()\n}\n\ntype E struct{ x, y int }\n\nvar V struct {\n\tExported bool\n\thidden   bool\n}\n\nfunc F(s S) (r struct{ q int }) { return }\n",
+	"package a\n\n// T is a T.\ntype T struct {\n\t// A is exported.\n\tA int // a\n\t// b is not.\n\tb int // b\n\n\tNested struct {\n\t\tX int\n\t\ty int\n\t}\n\tI interface {\n\t\tf() // hidden\n\t}\n}\n\n// U has methods.\ntype U interface {\n\tT() T // t\n\tu()\n}\n\nfunc unexported() {}\n\n// G is generic.\ntype G[P any] struct {\n\tp P\n\tQ []P\n}\n",
+	"package a\n\nvar X = struct {\n\tA int\n\tb int\n}{A: 1, b: 2}\n\ntype (\n\tone struct{ a int }\n\tTwo struct{ a int }\n\tThree interface{ m() }\n)\n\nfunc (Two) M(p interface{ q() }) {}\n",
+}
+
 func c06Prop(c *Ctx) {
 	c.Res.Rule = "hand corpus + $GOROOT/src sample; mode clone: whole-file Clone of a tree decorated on every point (density 1), 1/3 and undecorated, printed, checked for shared nodes/links, then every list of clone (or original) mutated in place; modes dup/dup-managed: a call argument / literal element / result used at two places must panic with 'duplicate node', its clone must print; non-trivial = distinct (source, seed, density, mode, pick)"
 	srcs := oracleSources(c, c.N(14), 8000)
@@ -328,6 +472,19 @@ func c06Prop(c *Ctx) {
 		}
 		for k := 0; k < 3; k++ {
 			run(c06Input{Src: src, Seed: 1, Mode: "dup", Pick: c.Rng.Intn(1000)})
+		}
+	}
+	// trees that went through a go/ast filter before decoration, or with Incomplete set by hand
+	for i, src := range append(append([]string{}, c06FilterSrcs...), srcs...) {
+		for _, prep := range []string{"exports", "filter", "incomplete"} {
+			if i >= len(c06FilterSrcs)+c.N(10) {
+				break
+			}
+			in := c06Input{Src: src, Seed: c.Rng.Int63(), Dens: []int{0, 3, 1}[c.Rng.Intn(3)], Mode: "clone", Pick: c.Rng.Intn(6), Prep: prep}
+			if f, inc := c06Parse(in, rand.New(rand.NewSource(in.Seed))); f != nil && inc > 0 {
+				c.Res.hist("c06-mode", "clone prep="+prep+" with Incomplete nodes")
+			}
+			run(in)
 		}
 	}
 	for _, src := range c06ManagedSrcs {
